@@ -1,14 +1,22 @@
-#!/bin/sh
+#!/bin/bash
 # detection margin: for every seeded change / mutant, the number of rejected records on the quick tier per seed
+# (MARGIN_JOBS, default 4, mutants side by side; output order is completion order)
 cd "$(dirname "$0")/.." && V=$(pwd)   # (a snapshot of /verif runs its own copy)
-for s in seeded/*/patch.diff mutants/*.diff; do
+one() {
+  s=$1; shift
   case $s in seeded/*) id=$(basename $(dirname $s));; *) id=$(basename $s .diff);; esac
   p=$(echo $id | sed 's/^c\([0-9][0-9]\).*/C\1/; s/^x\([0-9][0-9]\).*/X\1/; s/^\(C[0-9][0-9]\).*/\1/')
   line="$id $p"
   for seed in "$@"; do
     n=$(VERIF_SEED=$seed /venv/bin/python -m harness.mutate $s $p 2>/dev/null | grep -o "over [0-9]* rejected" | grep -o "[0-9]*" | head -1)
-    rc=$(VERIF_SEED=$seed true)
     line="$line seed$seed=${n:-0}"
   done
   echo "$line"
+}
+n=0
+for s in seeded/*/patch.diff mutants/*.diff; do
+  one $s "$@" &
+  n=$((n+1))
+  if [ $n -ge ${MARGIN_JOBS:-4} ]; then wait -n 2>/dev/null || wait; n=$((n-1)); fi
 done
+wait
